@@ -507,6 +507,10 @@ func c13(run *core.Run, replay string) {
 					continue
 				}
 				add(trCase{T: t, Entropy: "ANS0", Shape: sh, Size: bigN, Seed: run.Seed, Jobs: j})
+				if t == "BWT" && (j == 3 || j == 7 || j == 1) {
+					// an eighth of the block is an odd number of bytes: the chunks of the parallel inverse end on odd positions
+					add(trCase{T: t, Entropy: "ANS0", Shape: sh, Size: 4394312 + 8*int(j), Seed: run.Seed, Jobs: j + 1})
+				}
 			}
 		}
 	}
